@@ -209,6 +209,9 @@ func logSession(level int, password string, scenario int, extraSecret string) (l
 			return [][]byte{enc(g)}
 		case scenario == 3 && k == 0: // silence
 			return nil
+		case scenario == 17 && k == 0: // refused, connection kept; then the connection dies: the write of the retried authentication fails
+			sc.failWrite = true
+			return [][]byte{enc(frameBytes(itemBytes(uint32(rscp.RSCP_AUTHENTICATION), 3, []byte{0}), true, 1, 2))}
 		case scenario >= 5 && k == 0: // the device answers the authentication with an error code (busy, try again, …)
 			code := uint32(scenario - 5)
 			return [][]byte{enc(frameBytes(itemBytes(uint32(rscp.RSCP_AUTHENTICATION), 0xff, []byte{byte(code), byte(code >> 8), byte(code >> 16), byte(code >> 24)}), true, 1, 2))}
@@ -243,7 +246,7 @@ func logSession(level int, password string, scenario int, extraSecret string) (l
 				return "ok"
 			}
 			s = "err " + err.Error() // what a caller (the e3dc command) prints
-			if scenario != 1 {
+			if scenario != 1 && scenario != 17 {
 				break
 			}
 		}
@@ -315,7 +318,7 @@ func init() {
 			}
 		}
 		for _, lvl := range levels {
-			for scenario := 0; scenario < 5+12; scenario++ {
+			for scenario := 0; scenario < 5+12+1; scenario++ {
 				pw := g.secret()
 				passphrase := g.secret()
 				log, window, wb, res := logSession(lvl, pw, scenario, passphrase)
